@@ -50,3 +50,22 @@ prop(
     must_see=[("histogram_equal", 30), ("stages_logged", 4)],
     watchdog_s={"quick": 1500, "thorough": 10800},
 )
+
+prop(
+    "C02",
+    level="fault_enumeration",
+    rule=("pass 1 inventories every MPC chunk (gate, sender, receiver, shard, chunk#, length) of an honest malicious-mode hybrid query; "
+          "each fault run replays the same deterministic execution with one chunk of one sender altered (flip bit 0, flip last bit, xor 0xFF "
+          "on a seeded byte, zero the chunk, +1 on the first 8 bytes); quick = one fault per (step family, corrupt helper) for 1 shard "
+          "(padding on and off) plus a quarter of them for 2 shards; thorough = every inventoried chunk x 3 patterns (1 shard), 30 % "
+          "sample (2 shards); a case is distinct by (step family, sender, receiver, pattern) and non-trivial when the fault actually "
+          "changed bytes of a live chunk and the outcome was classified (abort on an honest helper / accepted with the untampered value / "
+          "accepted with a different value = violation)"),
+    assumptions=["the corrupt helper only alters MPC (helper-to-helper) traffic it sends; shard-to-shard traffic is inside one trust domain",
+                 "the execution replayed for a fault is the same as the inventoried one (same seeds, paused single-thread runtime)",
+                 "an honest helper that never finishes is detected by quiescence under tokio's paused clock"],
+    shards={"quick": 16, "thorough": 16},
+    min_evaluations={"quick": 100, "thorough": 2000},
+    must_see=[("step_families_faulted", 40), ("abort-honest-err", 20)],
+    watchdog_s={"quick": 1800, "thorough": 14400},
+)
